@@ -153,6 +153,14 @@ uint32_t Gen::pickRef() {
 	}
 	if (c.empty()) return 0xFFFFFFFFu;
 	uint32_t r = c[rng.below((uint32_t)c.size())];
+	if (self < plan->size()) {
+		// a geometry block usually points at its own kind of data block (NiScreenElements -> NiScreenElementsData, ...): code that
+		// down-casts the target only runs for that pairing, so prefer it when the plan holds one
+		std::string partner = (*plan)[self] + "Data";
+		std::vector<uint32_t> pc;
+		for (auto j : c) if ((*plan)[j] == partner) pc.push_back(j);
+		if (!pc.empty() && rng.below(3) != 0) r = pc[rng.below((uint32_t)pc.size())];
+	}
 	if (taken) taken->insert(r);
 	return r;
 }
@@ -295,9 +303,9 @@ void Gen::fill(char* s, size_t n) {
 					uint32_t c = (uint32_t)strlen(w);
 					pendingChars = w;
 					if (rng.below(24) == 0) {
-						// inline strings at the longest length the reader takes in one piece (2048) and around other common buffer sizes
-						static const size_t L[] = {2048, 2047, 2046, 255, 256, 1024};
-						size_t len = L[rng.below(6)];
+						// inline strings around common buffer sizes and, where asked for, at the longest length the reader takes in one piece (2048)
+						static const size_t LIM[] = {2048, 2047, 2046, 255, 256, 1024}, MID[] = {1000, 1023, 1024, 255, 256, 257};
+						size_t len = opt.readerLimitStrings ? LIM[rng.below(6)] : MID[rng.below(6)];
 						pendingChars = longWord(len);
 						c = (uint32_t)len;
 					}
@@ -521,6 +529,10 @@ SynthFile synthFile(const VerInfo& v, const std::string& focus, uint64_t seed, c
 	for (size_t i = 0; i < fixedPrefix; i++) {
 		auto r = genBlock(v, plan[i], rng.next(), opt.gen, nullptr, (uint32_t)i, nullptr, -1);
 		addCompat(r.wanted);
+	}
+	for (size_t i = 0; i < fixedPrefix; i++) {
+		std::string partner = plan[i] + "Data";
+		if (std::find(db.names.begin(), db.names.end(), partner) != db.names.end() && admissible(partner, v) && (int)plan.size() < opt.maxBlocks) plan.push_back(partner);
 	}
 	size_t lvl1 = plan.size();
 	for (size_t i = fixedPrefix; i < lvl1 && (int)plan.size() < opt.maxBlocks; i++) {
